@@ -623,7 +623,13 @@ def run_pipeline(sc):
         if mon_.seq in pause_at:
             sim.control.pause()
 
-    mon = Monitor(sim, cap=30_000, spin_cap=4_000, invariant=on_event)
+    # frozen-clock spin: judged against the work offered, not against a constant.  A burst of n requests at one
+    # instant through zero-service stages legitimately needs ~15 deliveries per request and stage at that instant
+    # (relay hops, offer, notify, poll, deliver, start, re-check, empty poll and answer, continuation, forward).
+    offered = len(sc["arrivals"]) + len(sc.get("ctl", [])) + len(sc.get("purge", [])) + len(sc.get("outside", [])) + \
+        sum(2 * len(st.get("shifts", [])) + 2 * len(st.get("schedule", [])) for st in sc["stages"]) + 8
+    spin_cap = max(4_000, 40 * len(sc["stages"]) * offered)
+    mon = Monitor(sim, cap=max(30_000, 6 * spin_cap), spin_cap=spin_cap, invariant=on_event)
     sim.control.on_time_advance(pipe.on_time_advance)
 
     def apply_outside(at):
